@@ -73,7 +73,7 @@ def random_net(rng, nmin, nmax, small=False):
     origin = rng.choice(on)
     limit = rng.choice([3, 5, 8, 12, 20, 40, 1000]) if not small else rng.randint(1, 8)
     to = -1
-    if rng.random() < 0.3:
+    if rng.random() < 0.4:
         others = [p for p in on if p != origin]
         if others:
             to = rng.choice(others)
@@ -108,7 +108,7 @@ def run(ctx):
             tlc_cases.setdefault(net_key(c), c)
 
     # seeded networks beyond the enumerated families, explored by TLC from a file (all tie-breaks, all orders)
-    sampled = [random_net(rng, 4, 8, small=True) for _ in range(ctx.pick(60, 1500))]
+    sampled = [random_net(rng, 4, 8, small=True) for _ in range(ctx.pick(150, 1500))]
     for i, c in enumerate(sampled):
         c["id"] = i
     r = ctx.tlc("ShortestPath", "ShortestPathFile.cfg", timeout=2400,
@@ -141,7 +141,7 @@ def run(ctx):
     if os.environ.get("C30_CORRUPT"):
         for c in cases:
             reach = [p for p in c["nodes"] if p != c["origin"] and 0 <= c["truth"][p] < c["limit"]]
-            if c["to"] == -1 and reach and c["profile"] == "car" and all(len(w["pts"]) == 2 for w in c["ways"]):
+            if c["to"] == -1 and reach and c["profile"] == "car" and all(len(w["pts"]) == 2 and w["kind"] == "res" for w in c["ways"]):
                 c["truth"][reach[0]] += 1
                 c["trust_truth"] = True
                 break
@@ -163,7 +163,7 @@ def run(ctx):
     ctx.sample({"world": "compact", "case": comp[len(comp) // 2]})
 
     # ---- 3. large seeded random networks (oracle: Bellman-Ford in the adapter; TLC validates a sample below)
-    nrand = ctx.pick(150, 2500)
+    nrand = ctx.pick(300, 2500)
     rnd = [with_names(random_net(rng, *ctx.pick((10, 40), (30, 100))), rng, report=True) for _ in range(nrand)]
     for c in rnd:
         ctx.distinct_cases.add(net_key(c))
